@@ -23,8 +23,10 @@ TRUSTED = [
     'Coq stdlib ZArith, QArith, Lia, Lqa (theorems closed under the global context)',
 ]
 ASSUMPTIONS = [
-    'djs_reject: sigma or invvar is supplied (the sigma=None, invvar=None branch that estimates a standard deviation is '
-    'not in the property); lower, upper >= 0, maxdev > 0, sigma >= 0, invvar >= 0; maxrej/groupdim/groupsize/groupbadpix '
+    'djs_reject: the property speaks of limits "in units of the SUPPLIED sigma or 1/sqrt(invvar), or the absolute limit": '
+    'calls with lower/upper but neither sigma nor invvar (the branch that estimates a standard deviation from the data) are '
+    'OUTSIDE the property and are neither generated nor modelled; maxdev-only calls (no sigma, no invvar) ARE inside and '
+    'are generated (the estimated sigma is computed by the routine but never used); lower, upper >= 0, maxdev > 0, sigma >= 0, invvar >= 0; maxrej/groupdim/groupsize/groupbadpix '
     'not used; grow > 0 only for 1-D data (the routine indexes axis 0 only)',
     'djs_maskinterp: xval distinct within every line; pydl numbers axes the IDL way (axis 0 = last numpy axis)',
     "aesthetics: inverse variances >= 0; method 'mean' with at least one good pixel; method 'damp' is not in the property",
@@ -142,8 +144,15 @@ def gen_reject(rng, ctx, k):
     if lower is None and upper is None and maxdev is None and rng.random() < 0.8:
         upper = C.dyadic(rng, 0.5, 4, 3)
     mode = rng.choice(['sigma_scalar', 'sigma_array', 'invvar', 'invvar'])
+    if rng.random() < 0.12:
+        # "or the absolute limit": maxdev alone, neither sigma nor invvar supplied (the routine then estimates a
+        # sigma it never uses)
+        mode, lower, upper = 'maxdev_only', None, None
+        maxdev = C.dyadic(rng, 0.25, 6, 3)
     sq = [0.0, 0.0625, 0.25, 1.0, 2.25, 4.0, 9.0]
-    if mode == 'sigma_scalar':
+    if mode == 'maxdev_only':
+        scales = [('s', 0.0)] * n
+    elif mode == 'sigma_scalar':
         s0 = rng.choice([0.0, 1.0, C.dyadic(rng, 0.125, 3, 3)])
         scales = [('s', s0)] * n
     elif mode == 'sigma_array':
@@ -182,7 +191,9 @@ def gen_reject(rng, ctx, k):
          'sticky': rng.random() < 0.4, 'grow': (rng.choice([0, 0, 1, 1, 2, 3, 4]) if nd == 1 else 0),
          'inmask': None if rng.random() < 0.3 else [rng.random() < 0.8 for _ in range(n)],
          'outmask': None, '_scales': scales, '_mode': mode}
-    if mode == 'sigma_scalar':
+    if mode == 'maxdev_only':
+        pass
+    elif mode == 'sigma_scalar':
         c['sigma'] = scales[0][1]
     elif mode == 'sigma_array':
         c['sigma'] = [v for _, v in scales]
@@ -298,8 +309,11 @@ def interp_terms(c, r):
         # n-D: one case for the whole array (flat, C order) with the index lists of its lines
         xv = 'None' if c['xval'] is None else '(Some %s)' % qlist(c['xval'])
         e = '(QOk %s)' % qlist(r['ok']) if 'ok' in r else 'QErr'
-        return [(0, '(CInterpND %s %s %s %s %s)' % (qlist(c['y']), blist([m != 0 for m in c['mask']]), xv,
-                                                   C.coq_list([natlist(ln) for ln in c['_lines']]), e))]
+        # the lines are derived inside Coq from (shape, axis); numpy's own cutting (moveaxis) goes along for comparison
+        npl = r.get('np_lines') or c['_lines']
+        return [(0, '(CInterpND %s %s %s %s %d%%nat %s %s)' % (qlist(c['y']), blist([m != 0 for m in c['mask']]), xv,
+                                                              natlist(c['shape']), c['axis'],
+                                                              C.coq_list([natlist(ln) for ln in npl]), e))]
     out = []
     for li, ln in enumerate(c['_lines']):
         ys = [c['y'][p] for p in ln]
@@ -358,7 +372,7 @@ def gen_median(rng, ctx, k):
 def median_term(c, r):
     xs = [int(v * 4) for v in c['xs']]
     if len(c['shape']) == 1:
-        e = '(MOk %s)' % zlist([int(Fr(v) * 4) for v in r['ok']]) if 'ok' in r else 'MErr'
+        e = '(MOk %s)' % zlist([int(Fr(v) * 4) for v in r['ok']]) if 'ok' in r else ('MErr' if r.get('err') == 'ValueError' else 'MOther')
         return '(CMedian %s %s %s)' % (zlist(xs), zl(c['width']), e)
     nr, nc = c['shape']
     rows = C.coq_list([zlist(xs[i * nc:(i + 1) * nc]) for i in range(nr)])
@@ -539,7 +553,7 @@ def correspond(ctx, proof_ok=True):
         'calls_by_function_and_outcome': dist,
         'reject': {'grow': {str(g): sum(1 for c, _ in rej if c['grow'] == g) for g in range(5)},
                    'sticky': sum(1 for c, _ in rej if c['sticky']),
-                   'scale': {m: sum(1 for c, _ in rej if c['_mode'] == m) for m in ('sigma_scalar', 'sigma_array', 'invvar')},
+                   'scale': {m: sum(1 for c, _ in rej if c['_mode'] == m) for m in ('sigma_scalar', 'sigma_array', 'invvar', 'maxdev_only')},
                    'qdone_true': sum(1 for _, r in rej if 'ok' in r and r['ok']['qdone']),
                    'with_rejections': sum(1 for _, r in rej if 'ok' in r and not all(r['ok']['mask'])),
                    'ndim>1': sum(1 for c, _ in rej if len(c['shape']) > 1)},
